@@ -19,9 +19,104 @@ import (
 	"os"
 	"strconv"
 	"strings"
+	"sync"
+	"time"
 
 	"github.com/KafScale/platform/pkg/lfs"
 )
+
+// verifC30Concurrent runs n stream downloads through the real handler so that their verification
+// and streaming phases overlap: download i is started once download i-1 has buffered its whole
+// object and is parked inside the S3 fake right before EOF; then the EOFs are released in the
+// scheduled order, each handler running to completion before the next release.
+// f = <n> <release order, e.g. 1,0,2> then per download: <rid> <sha> <size> <obj>
+func verifC30Concurrent(f []string) string {
+	n, _ := strconv.Atoi(f[0])
+	var order []int
+	for _, x := range strings.Split(f[1], ",") {
+		k, _ := strconv.Atoi(x)
+		order = append(order, k)
+	}
+	fs3 := verifC3xNewS3()
+	m := verifC3xModule(fs3, 0, "sha256", nil)
+	type dl struct {
+		key     string
+		reached chan struct{}
+		release chan struct{}
+		done    chan struct{}
+		rr      *httptest.ResponseRecorder
+	}
+	dls := make([]*dl, n)
+	var mu sync.Mutex
+	byKey := map[string]*dl{}
+	fs3.onEOF = func(key string) {
+		mu.Lock()
+		d := byKey[key]
+		mu.Unlock()
+		if d == nil {
+			return
+		}
+		close(d.reached)
+		select {
+		case <-d.release:
+		case <-time.After(20 * time.Second):
+		}
+	}
+	for i := 0; i < n; i++ {
+		g := f[2+4*i : 6+4*i]
+		d := &dl{key: fmt.Sprintf("ns/topic/lfs/2026/01/01/obj-verif-%d", i), reached: make(chan struct{}), release: make(chan struct{}),
+			done: make(chan struct{}), rr: httptest.NewRecorder()}
+		dls[i] = d
+		mu.Lock()
+		byKey[d.key] = d
+		mu.Unlock()
+		fs3.mu.Lock()
+		fs3.objects[d.key] = verifC30Unhex(g[3])
+		fs3.mu.Unlock()
+		size, _ := strconv.ParseInt(g[2], 10, 64)
+		body, _ := json.Marshal(lfsDownloadRequest{Bucket: "verif-bucket", Key: d.key, Mode: "stream",
+			Integrity: &lfsIntegrityRequest{SHA256: string(verifC30Unhex(g[1])), Size: size}})
+		hr := httptest.NewRequest(http.MethodPost, "/lfs/download", bytes.NewReader(body))
+		if rid := string(verifC30Unhex(g[0])); rid != "" {
+			hr.Header.Set(lfsHeaderRequestID, rid)
+		}
+		go func() {
+			defer close(d.done)
+			defer func() { _ = recover() }()
+			m.handleHTTPDownload(d.rr, hr)
+		}()
+		select { // parked before EOF (object fully buffered) or already finished (refused early / over-long object)
+		case <-d.reached:
+		case <-d.done:
+		case <-time.After(20 * time.Second):
+		}
+	}
+	for _, k := range order {
+		if k < 0 || k >= n {
+			continue
+		}
+		close(dls[k].release)
+		select {
+		case <-dls[k].done:
+		case <-time.After(20 * time.Second):
+		}
+	}
+	outs := make([]string, n)
+	for i, d := range dls {
+		select {
+		case <-d.done:
+		default:
+			outs[i] = "hung"
+			continue
+		}
+		if d.rr.Code != http.StatusOK {
+			outs[i] = fmt.Sprintf("status:%d", d.rr.Code)
+		} else {
+			outs[i] = "bytes:" + verifC30Hex(d.rr.Body.Bytes())
+		}
+	}
+	return "cdl " + strings.Join(outs, " ")
+}
 
 func init() {
 	if os.Getenv("VERIF_HARNESS") != "C30" {
@@ -93,6 +188,8 @@ func verifC30Line(f []string) (out string) {
 		}
 	}
 	switch f[0] {
+	case "cdl":
+		return verifC30Concurrent(f[1:])
 	case "resolve":
 		max, _ := strconv.ParseInt(f[1], 10, 64)
 		var rd lfs.S3Reader
@@ -141,6 +238,9 @@ func verifC30Line(f []string) (out string) {
 		}
 		body, _ := json.Marshal(req)
 		hr := httptest.NewRequest(http.MethodPost, "/lfs/download", bytes.NewReader(body))
+		if len(f) > 10 && strings.HasPrefix(f[10], "rid=") {
+			hr.Header.Set(lfsHeaderRequestID, string(verifC30Unhex(f[10][4:])))
+		}
 		rr := httptest.NewRecorder()
 		m.handleHTTPDownload(rr, hr)
 		if rr.Code != http.StatusOK {
